@@ -207,6 +207,8 @@ class Parser:
                 if not self.accept(","):
                     break
             self.expect(">")
+        if name in ("Box", "Rc") and len(args) == 1:
+            return args[0]
         return ("ty", name, args)
 
     # ---- patterns
@@ -679,8 +681,11 @@ class Parser:
             items = []
             while not self.at(close):
                 items.append(self.expr())
-                if self.at(";"):
-                    raise Unsupported("vec![x; n]")
+                if self.at(";") and len(items) == 1:
+                    self.next()
+                    n = self.expr()
+                    self.expect(close)
+                    return ("arrayrep", items[0], n)
                 if not self.accept(","):
                     break
             self.expect(close)
@@ -1201,7 +1206,7 @@ def let_bound(e):
     return out
 
 
-MUTATING_METHODS = {"push", "extend_from_slice"}          # plus the &mut self methods of the translated set (added per module)
+MUTATING_METHODS = {"push", "extend_from_slice", "resize", "truncate"}          # plus the &mut self methods of the translated set (added per module)
 
 
 class FnTranslator:
@@ -1267,6 +1272,14 @@ class FnTranslator:
                 setv(x[3], ta)
             if k == "index" and x[2][0] != "range":
                 setv(x[2], T("usize"))
+            if k == "struct":
+                sname = x[1][-1] if x[1][-1] != "Self" else self.impl
+                st_ = self.c.struct(sname)
+                if st_:
+                    ftys = dict(st_)
+                    for (fname_, fe) in x[2]:
+                        if fname_ in ftys:
+                            setv(fe, ftys[fname_])
             if k == "call" and x[1][0] == "path":
                 info = self.lookup_fn(x[1][1])
                 if info:
@@ -1374,6 +1387,8 @@ class FnTranslator:
                     return T("Option", a) if a else None
                 if len(p) == 2 and p[1] == "from" and len(e[2]) == 1:
                     return T(p[0] if p[0] != "Self" else self.impl)
+                if p[-2:] == ["mem", "take"] and len(e[2]) == 1:
+                    return self.ty_of(e[2][0], env)
                 info = self.lookup_fn(p)
                 if info:
                     return info["full_ret"]
@@ -1422,8 +1437,10 @@ class FnTranslator:
                         return T("usize")
                     if m == "is_empty":
                         return T("bool")
-                    if m in ("iter", "to_vec", "clone", "collect"):
+                    if m in ("iter", "to_vec", "clone", "collect", "into_boxed_slice"):
                         return rt
+                    if m == "max" and not e[3]:
+                        return T("Option", rt[2][0])
                     if m in ("all", "any"):
                         return T("bool")
                     if m == "map" and e[3] and e[3][0][0] == "closure":
@@ -1510,10 +1527,7 @@ class FnTranslator:
             ev = self.variant_enum(p[1]) if p[1][0].isupper() else None
             if ev and not ev[1]:
                 return "%s_%s" % (ev[0], p[1])
-            if ty is not None:
-                env[p[1]] = ty
-            elif p[1] in env:
-                del env[p[1]]
+            env[p[1]] = ty if ty is not None else self.locals.get(p[1])
             return var(p[1])
         if k == "plit":
             return "%d%s" % (p[1], "%nat" if is_nat(ty) else ("%Z" if is_z(ty) else ""))
@@ -1682,6 +1696,8 @@ class FnTranslator:
             if f[0] != "path":
                 raise Unsupported("call of a computed function")
             p = f[1]
+            if p[-2:] == ["mem", "take"]:
+                return None
             info = self.lookup_fn(p)
             if info is None and len(p) == 2 and p[1] == "from" and len(e[2]) == 1:
                 return None
@@ -1720,8 +1736,11 @@ class FnTranslator:
             rt = self.ty_of(e[1], env)
             if m in MUTATING_METHODS or m == "into":
                 return None
-            if m in ("iter", "clone", "to_vec", "copied", "cloned") and not e[3]:
+            if m in ("iter", "clone", "to_vec", "copied", "cloned", "into_boxed_slice") and not e[3]:
                 return self.pure(e[1], env)
+            if m == "max" and not e[3] and is_list(rt) and is_int(rt[2][0]) and not is_nat(rt[2][0]):
+                r0 = self.pure(e[1], env)
+                return None if r0 is None else "(list_max_opt %s)" % r0
             if m == "chars" and is_str(rt):
                 return self.pure(e[1], env)
             if e[3] and e[3][0][0] == "closure" and len(e[3]) == 1 and len(e[3][0][1]) == 1:
@@ -1736,7 +1755,7 @@ class FnTranslator:
                     if body is None:
                         return None
                     fn = {"all": "forallb", "any": "existsb", "map": "map"}[m]
-                    return "(%s (fun %s => %s) %s)" % (fn, ps, body, r0)
+                    return "(%s (fun %s%s => %s) %s)" % (fn, "'" if cl[1][0][0] == "ptuple" else "", ps, body, r0)
                 if rt is not None and rt[0] == "ty" and rt[1] == "Option" and m in ("and_then", "map"):
                     ps = self.pat(cl[1][0], rt[2][0], env2)
                     body = self.pure_any(cl[2], env2)
@@ -2024,6 +2043,15 @@ class FnTranslator:
             if f[0] != "path":
                 raise Unsupported("call of a computed function")
             p = f[1]
+            if p[-2:] == ["mem", "take"] and len(e[2]) == 1:
+                place = e[2][0]
+                pt = self.ty_of(place, env)
+                cur = self.pure(place, env)
+                if pt is None or cur is None:
+                    raise Unsupported("mem::take of a computed place")
+                t = self.c.fresh()
+                root, term = self.place_update(place, default_term(self.c, pt), env)
+                return "let %s := %s in\nlet %s := %s in\n%s" % (t, cur, var(root), term, k(t))
             info = self.lookup_fn(p)
             if info is None and len(p) == 2 and p[1] == "from" and len(e[2]) == 1:
                 info = self.lookup_from(p[0] if p[0] != "Self" else self.impl, self.ty_of(e[2][0], env))
@@ -2079,13 +2107,22 @@ class FnTranslator:
                         ps = self.pat(cl[1][0], rt[2][0], env2)
                         body = self.tr(cl[2], env2, RETURN, rt[2][0] if m == "map" else None)
                         fn = {"all": "all_m", "any": "any_m", "map": "map_m"}[m]
-                        return "do %s <- %s (fun %s =>\n%s) %s;\n%s" % (t, fn, ps, body, r0, k(t))
+                        return "do %s <- %s (fun %s%s =>\n%s) %s;\n%s" % (t, fn, "'" if cl[1][0][0] == "ptuple" else "", ps, body, r0, k(t))
                     if rt is not None and rt[0] == "ty" and rt[1] == "Option" and m in ("and_then", "map"):
                         ps = self.pat(cl[1][0], rt[2][0], env2)
                         body = self.tr(cl[2], env2, RETURN if m == "and_then" else (lambda v: "Some (Some %s)" % v))
                         return "do %s <- (match %s with\n| Some %s =>\n%s\n| None => Some None\nend);\n%s" % (t, r0, ps, body, k(t))
                     raise Unsupported("closure argument of .%s" % m)
                 return self.tr(e[1], env, with_recv_cl)
+            if is_list(rt) and m in ("resize", "truncate"):
+                def after_rs(vals):
+                    recv = self.pure(e[1], env)
+                    if recv is None:
+                        raise Unsupported("%s on a computed place" % m)
+                    newv = "(vec_resize %s %s %s)" % (recv, vals[0], vals[1]) if m == "resize" else "(firstn %s %s)" % (vals[0], recv)
+                    root, term = self.place_update(e[1], newv, env)
+                    return "let %s := %s in\n%s" % (var(root), term, k("tt"))
+                return self.tr_list(e[3], env, after_rs, [T("usize"), rt[2][0]])
             if is_list(rt) and m == "extend_from_slice":
                 def after_ext(v):
                     recv = self.pure(e[1], env)
@@ -2323,7 +2360,7 @@ class FnTranslator:
         return "(" + " * ".join(self.c.coq_ty(self.var_ty(n, env)) for n in names) + ")%type" if len(names) > 1 else self.c.coq_ty(self.var_ty(names[0], env))
 
     def var_ty(self, n, env):
-        if n in env:
+        if n in env and env[n] is not None:
             return env[n]
         if n == "self":
             return T(self.impl)
@@ -2700,6 +2737,14 @@ MODULES = {
                       (None, None, "str_concat"), (None, None, "str_len"), (None, None, "str_at"), (None, None, "str_substr"),
                       (None, None, "str_prefixof"), (None, None, "str_suffixof"), (None, None, "str_contains"),
                       (None, None, "str_indexof"), (None, None, "str_replace"), (None, None, "str_replace_all")],
+    },
+    "CompactTableGen": {
+        "files": ["compact_tables.rs"],
+        "types": ["CompactTable", "CompactTableBuilder"],
+        "consts": [],
+        "functions": [("CompactTable", None, f) for f in ("eval", "size", "num_states", "alphabet_size")]
+                     + [("CompactTableBuilder", None, f) for f in ("new", "set_default", "resize", "base_conflicts",
+                                                                  "store_successors", "set_successors", "build")],
     },
     "PartitionGen": {
         "files": ["character_sets.rs", "smt_strings.rs", "errors.rs"],
